@@ -46,7 +46,13 @@ func runResponderPremium(r *Run, sigPrefix string, seed int64) {
 	slots := []slot{{"btc", "in", premium.BTC, premium.SwapIn}, {"btc", "out", premium.BTC, premium.SwapOut},
 		{"lbtc", "in", premium.LBTC, premium.SwapIn}, {"lbtc", "out", premium.LBTC, premium.SwapOut}}
 	// layer settings: which layers are configured for the slot under test
-	layers := []string{"builtin", "peer-zero-over-builtin", "peer-over-builtin", "global", "peer", "peer-zero-over-global", "global-zero", "peer-over-global-zero", "peer-negative"}
+	// the first four rounds never touch the peer's own entry: the only thing that changes between them is the stored
+	// global rate (a node that remembers what it resolved for a peer would keep charging the old one)
+	layers := []string{"builtin", "global", "global-changed", "global-zero", "global-again", "peer", "peer-zero-over-global", "peer-negative", "peer-removed-global-changed"}
+	if seed%2 == 1 {
+		layers = []string{"builtin", "peer-zero-over-builtin", "peer-over-builtin", "peer-removed", "global", "peer", "peer-zero-over-global", "global-zero", "peer-over-global-zero", "peer-negative"}
+	}
+	hadPeerRate := map[string]bool{}
 	n := 0
 	stored := map[string]int64{} // the stored-global reference table
 	for _, layer := range layers {
@@ -59,8 +65,9 @@ func runResponderPremium(r *Run, sigPrefix string, seed int64) {
 			p := int64(11000 + 900*i + rng.Intn(300))
 			switch layer {
 			case "builtin":
-			case "global":
-				global[k] = g
+			case "global", "global-changed", "global-again", "peer-removed-global-changed":
+				global[k] = g + int64(len(layer))*13
+			case "peer-removed":
 			case "peer":
 				global[k], peer[k] = g, p
 			case "peer-zero-over-global":
@@ -77,7 +84,10 @@ func runResponderPremium(r *Run, sigPrefix string, seed int64) {
 		}
 		for _, s := range slots {
 			k := s.chain + "/" + s.typ
-			ps.DeleteRate(ctx, mal.ID, s.asset, s.op)
+			if _, keep := peer[k]; hadPeerRate[k] && !keep {
+				ps.DeleteRate(ctx, mal.ID, s.asset, s.op)
+				hadPeerRate[k] = false
+			}
 			if v, ok := global[k]; ok {
 				pr, _ := premium.NewPremiumRate(s.asset, s.op, premium.NewPPM(v))
 				if err := ps.SetDefaultRate(ctx, pr); err != nil {
@@ -91,6 +101,7 @@ func runResponderPremium(r *Run, sigPrefix string, seed int64) {
 					r.Inconclusive("SetRate: " + err.Error())
 					return
 				}
+				hadPeerRate[k] = true
 			}
 		}
 		// a stored global rate cannot be deleted through the API: from the first "global" layer on, the slot keeps a
